@@ -14,7 +14,7 @@ RULE = ('Hypothesis-generated molecules of 1..12 fragments on a random 30..120 b
         'vote; metamorphic: all permutations of the insertion order (<=4 fragments; 6 drawn otherwise) and duplication of '
         'every fragment; history: an earlier get_consensus call in either mode on the same molecule object, or a consensus request followed by Molecule.add_molecule of the remaining fragments. Part deep: molecules of 254..520 single-read fragments in which 1 / n-256 / 255..257 / n/2 fragments carry another base (vote counters around 256 and 512). Non-trivial: at least one tied (absent) position and one position where the mates of a '
         'fragment disagree.')
-ASSUMPTIONS = ['fragments have an R1 flagged read1 (the implementation asserts it); reads carry correct MD tags',
+ASSUMPTIONS = ['fragments have an R1 flagged read1 (the implementation asserts it); reads carry correct MD tags (except the one deliberately MD-less mate of an "unusable" fragment, which casts no vote)',
                'all fragments of a molecule share cell, UMI and R1 orientation (what molecule assignment guarantees)']
 
 CONTIG = [('chrS', 1000)]
